@@ -55,7 +55,16 @@ def run(ck, w):
     o = ck.ob("C02.2b", "last_complete_band walks list_band_ids() newest first")
     revs = [e for e in lcb.events if e.bb in lcb.live and e.name == "std::iter::Iterator::rev"]
     opens = rules.creators_of(lcb, "band::Band::open")
-    if not revs or not opens:
+    pops = [e for e in lcb.events if e.bb in lcb.live and e.name == "std::vec::Vec::<T, A>::pop" and e.args and
+            "archive::Archive::list_band_ids" in flow.origin_calls(flow.origins_x(lib, lcb, e.args[0], through_calls=[r"Try>?::branch$"]))]
+    if pops and opens and not revs:
+        # the ascending list (C02.2e) is consumed from its end: `while let Some(id) = ids.pop()`
+        bid = flow.origins_x(lib, lcb, opens[0].args[1])
+        if any(x[0] == "call" and x[1] == "std::vec::Vec::<T, A>::pop" for x in bid):
+            ck.ok(o, "ids taken with pop() from the end of the ascending list", sites=[pops[0].site()])
+        else:
+            ck.fail(o, lcb.name, "band order changed", "opened id from %s" % flow.origin_summary(bid))
+    elif not revs or not opens:
         ck.fail(o, lcb.name, "not newest-first", "no .rev() over the band list or no Band::open")
     else:
         src = flow.origins_x(lib, lcb, revs[0].args[0])
